@@ -21,6 +21,8 @@ import (
 	"net"
 	"net/http"
 	"net/url"
+	"os"
+	"syscall"
 
 	"github.com/saucelabs/forwarder/internal/martian"
 	"github.com/saucelabs/forwarder/internal/martian/mitm"
@@ -55,7 +57,12 @@ func (e vfNetErr) Temporary() bool { return false }
 func vfFault() (error, int) {
 	var err error
 	want := 0
-	switch vfrt.Choice("fault", 12) {
+	switch vfrt.Choice("fault", 14) {
+	case 12:
+		// the origin took the request and went away without a reply: end of stream or a reset
+		err, want = []error{io.EOF, io.ErrUnexpectedEOF}[vfrt.Choice("eof-kind", 2)], 0
+	case 13:
+		err, want = &net.OpError{Op: "read", Net: "tcp", Err: os.NewSyscallError("read", syscall.ECONNRESET)}, 502
 	case 0:
 		err, want = &net.OpError{Op: []string{"dial", "read", "write"}[vfrt.Choice("op", 3)], Net: "tcp", Err: vfNetErr{true}}, 504
 	case 1:
@@ -126,6 +133,9 @@ func vfH_C12_map() {
 	case want == 500:
 		vfrt.Reach("map-500")
 		vfrt.Assert(code == 500, "map/otherwise-500")
+	case want == 0:
+		// no particular status is documented for this failure: some 5xx
+		vfrt.Assert(code >= 500, "map/upstream-failures-are-5xx")
 	default:
 		vfrt.Reach("map-4xx")
 		vfrt.Assert(code == want, "map/proxy-refusals")
